@@ -24,9 +24,16 @@ def grammar_rules(ctx) -> Dict[str, Tuple[Any, ast.AST]]:
     repo = ctx.repo
     mod = repo.module(FILT)
     cf = repo.fn("compile_filter", FILT)
-    roots = find_calls(cf.node, "ParserPython")
+    # the parser may be built in a same-module helper that compile_filter runs (parse_filter(), ...)
+    from .common import module_funcs_reachable
+    roots = []
+    for g in module_funcs_reachable(repo, cf, depth=3):
+        for c in find_calls(g.node, "ParserPython"):
+            if not any(c is x for x in roots):
+                roots.append(c)
+                cf = g if len(roots) == 1 else cf
     ctx.require(len(roots) == 1 and roots[0].args and isinstance(roots[0].args[0], ast.Name),
-                "compile_filter no longer builds one ParserPython(<start rule>)")
+                "compile_filter (and the helpers it calls) no longer build one ParserPython(<start rule>)")
     out: Dict[str, Tuple[Any, ast.AST]] = {}
     cur_mod: Dict[str, Any] = {}     # rule name -> module in which the reference to it was seen
     mod = cf.module
@@ -959,6 +966,7 @@ def r4(ctx):
                        why or "")
     r4_result_is_bool(ctx)
     r4_decode_guard(ctx)
+    r4_body_parse_guard(ctx)
 
 
 BOOL_CALLS = {"bool", "isinstance", "callable", "hasattr", "any", "all", "issubclass"}
@@ -1530,18 +1538,53 @@ def _keys_written_sub(f) -> Tuple[Dict[str, ast.AST], bool]:
     return keys, sup
 
 
-def _helper_literal_args(fn_node, prefix: str) -> Tuple[Optional[str], set]:
-    """Nested helper whose name starts with prefix: literal string args of its calls."""
+def _const_str_table(repo, fi, v) -> Optional[set]:
+    """String elements of a constant tuple/list/set expression or of a class / module constant naming one."""
+    if fi is not None and isinstance(v, ast.Attribute) and isinstance(v.value, ast.Name) and v.value.id in ("self", "cls") \
+            and fi.cls is not None:
+        v = repo.class_attr(fi.cls, v.attr)
+    elif fi is not None and isinstance(v, ast.Name):
+        v = (repo.class_attr(fi.cls, v.id) if fi.cls is not None else None) or repo.module_assign(fi.module, v.id)
+    if isinstance(v, (ast.Tuple, ast.List, ast.Set)) and all(isinstance(e, ast.Constant) and isinstance(e.value, str) for e in v.elts):
+        return {e.value for e in v.elts}
+    return None
+
+
+def _helper_literal_args(fn_node, prefix: str, repo=None, fi=None) -> Tuple[Optional[str], set]:
+    """Nested helper whose name starts with prefix: literal string args of its calls (a call inside a loop over a
+    constant table of strings counts for every element of the table)."""
     names = [d.name for d in walk(fn_node) if isinstance(d, FUNC_TYPES) and d is not fn_node and d.name.startswith(prefix)]
     if len(names) != 1:
         return None, set()
     args = set()
     for c in calls(fn_node):
         if ap(c.func) == names[0]:
-            if len(c.args) != 1 or not (isinstance(c.args[0], ast.Constant) and isinstance(c.args[0].value, str)):
+            a = c.args[0] if len(c.args) == 1 else None
+            if isinstance(a, ast.Constant) and isinstance(a.value, str):
+                args.add(a.value)
+                continue
+            tab = None
+            if isinstance(a, ast.Name) and repo is not None:
+                loops = [l for l in ancestors(c) if isinstance(l, ast.For) and isinstance(l.target, ast.Name) and l.target.id == a.id]
+                tab = _const_str_table(repo, fi, loops[0].iter) if loops else None
+            if tab is None:
                 raise AnalysisError(f"non-literal argument to {names[0]}")
-            args.add(c.args[0].value)
+            args |= tab
     return names[0], args
+
+
+def _table_loop_keys(repo, fi, dict_name: str) -> Tuple[Optional[str], set]:
+    """`for key in <constant tuple of strings>: ... <dict_name>[key] ...` -> (table text, keys)."""
+    for l in walk(fi.node, into_defs=True):
+        if not (isinstance(l, ast.For) and isinstance(l.target, ast.Name)):
+            continue
+        if not any(isinstance(x, ast.Subscript) and ap(x.value) == dict_name and isinstance(x.slice, ast.Name) and
+                   x.slice.id == l.target.id for x in ast.walk(l)):
+            continue
+        tab = _const_str_table(repo, fi, l.iter)
+        if tab is not None:
+            return norm(l.iter), tab
+    return None, set()
 
 
 def _root_attr(e, recv: str) -> Optional[str]:
@@ -1605,10 +1648,12 @@ def r6(ctx):
     read = _const_keys_read(adp.node, aparams[1])
     # dispatcher key
     disp = []
-    for n in walk(imp.node):
-        if isinstance(n, ast.Subscript) and ap(n.value) == "_TYPE_CLASSES" and isinstance(n.slice, ast.Subscript) and \
-                isinstance(n.slice.slice, ast.Constant):
-            disp.append(n.slice.slice.value)
+    from .common import module_funcs_reachable
+    for g in module_funcs_reachable(repo, imp, depth=3):      # the dispatch may live in a helper (_log_entry_from_dict)
+        for n in walk(g.node, into_defs=True):
+            if isinstance(n, ast.Subscript) and ap(n.value) == "_TYPE_CLASSES" and isinstance(n.slice, ast.Subscript) and \
+                    isinstance(n.slice.slice, ast.Constant):
+                disp.append(n.slice.slice.value)
     ctx.ob("C18.R6", "import_log_entries dispatches on one literal key of the exported dict", len(disp) == 1, imp.where,
            f"found {disp}")
     ctx.floor("C18.R6", "keys exported by AbstractMessageLogEntry.to_dict", len(written), 3)
@@ -1621,8 +1666,12 @@ def r6(ctx):
         ctx.ob("C18.R6", f"to_dict writes {k!r}: consumed on import", k in read or k in disp, ctx.w(td, node),
                "exported state that the import drops")
     # meta uuid (de)hydration sets
-    dn, dset = _helper_literal_args(td.node, "_dehydrate")
-    hn, hset = _helper_literal_args(adp.node, "_hydrate")
+    dn, dset = _helper_literal_args(td.node, "_dehydrate", repo, td)
+    hn, hset = _helper_literal_args(adp.node, "_hydrate", repo, adp)
+    if dn is None:
+        dn, dset = _table_loop_keys(repo, td, "meta")
+    if hn is None:
+        hn, hset = _table_loop_keys(repo, adp, "meta")
     if dn is None and hn is None:
         ctx.note("C18.R6: meta UUID (de)hydration helpers not found; meta key agreement not compared")
     else:
@@ -1751,6 +1800,42 @@ def r6(ctx):
         if k in wmap and k in rmap and wmap[k] and rmap[k]:
             ctx.ob("C18.R6", f"Message: key {k!r} carries the same attribute both ways", wmap[k] == rmap[k], mf.where,
                    f"to_dict stores self.{wmap[k]}, from_dict assigns msg.{rmap[k]}")
+    # everything the UDP serializer writes from must travel in the extended dict (else a re-imported entry
+    # re-serialises to other bytes than the logged packet)
+    from .c01 import SER
+    smod = repo.module(SER)
+    wire = {}
+    for g in repo.all_funcs:
+        if g.module is not smod or g.cls is None:
+            continue
+        ps = [a.arg for a in g.node.args.args]
+        for x in walk(g.node, into_defs=True):
+            if isinstance(x, ast.Attribute) and isinstance(x.value, ast.Name) and x.value.id in ("msg", "message") and \
+                    x.value.id in ps and isinstance(x.ctx, ast.Load):
+                wire.setdefault(x.attr, (g, x))
+    carried = {v for v in wmap.values() if v}
+    props = {n_ for n_, m_ in mcls.methods.items() if any((ap(d) or "").split(".")[-1] == "property" for d in m_.node.decorator_list)}
+    n_wire = 0
+    for attr, (g, x) in sorted(wire.items()):
+        if attr in ("blocks", "raw_body", "_blocks") or (attr in props and attr != "blocks") or \
+                repo.lookup_method(mcls, attr) is not None:
+            continue   # the body travels as 'body'; properties are derived from exported state; methods are not state
+        n_wire += 1
+        ctx.ob("C18.R6", f"Message: wire state {attr!r} (read by the UDP serializer) is carried by to_dict(extended=True)",
+               attr in carried, ctx.w(g, x),
+               f"msg.{attr} shapes the serialised packet but is neither exported nor re-imported: the re-imported entry's "
+               f"message re-serialises to different bytes than the one that was logged")
+    ctx.floor("C18.R6", "message attributes read by the UDP serializer", n_wire, 4)
+    # a summary is part of every exported entry: parsing foreign content for it must not be able to raise
+    for ci in sorted(subs, key=lambda c: c.name):
+        for g, _ in effective_code(repo, ci, "summary", depth=2):
+            for c in calls(g.node):
+                if (ap(c.func) or "").startswith("llsd.parse") or (call_attr(c) or "").startswith("parse_") and \
+                        (ap(c.func) or "").startswith("llsd."):
+                    why = _swallowed(c, g.node)
+                    ctx.ob("C18.R6", f"{ci.name}.summary: `{norm(c)}` cannot raise out of the export", why is None, ctx.w(g, c),
+                           f"{why}: a body that is not what its content type says makes to_dict() / export_log_entries() "
+                           f"raise for the whole log (and leaves a half-built summary behind)")
     # per-key effects: to_dict emits a (possibly empty) list per block name; from_dict must recreate the list
     # independently of its elements
     def per_key_effect(fn_info, outer: ast.For, key_name: str, list_name: Optional[str]) -> bool:
@@ -1948,6 +2033,17 @@ def r8(ctx):
     mg = repo.fn("LLUDPMessageLogEntry.message")
     loads = [c for c in calls(mg.node) if call_attr(c) == "loads" and c.args and ap(c.args[0]) == "self._frozen_message"]
     dumps = [c for c in calls(f.node) if call_attr(c) == "dumps"]
+    for c in dumps:
+        a = c.args[0] if c.args else None
+        if a is not None and ap(a) == "self._message":
+            live = any((ap(e) == "self._message" and pol) or
+                       (isinstance(e, ast.Compare) and len(e.ops) == 1 and ap(e.left) == "self._message" and
+                        isinstance(e.comparators[0], ast.Constant) and e.comparators[0].value is None and
+                        ((isinstance(e.ops[0], ast.IsNot) and pol) or (isinstance(e.ops[0], ast.Is) and not pol)))
+                       for e, pol in facts(c, f.node))
+            ctx.ob("C18.R8", "freeze pickles a live message (a frozen entry is not frozen again)", live, ctx.w(f, c),
+                   "`self._message` is None once the entry is frozen and nothing stops a second freeze(): it stores "
+                   "pickle.dumps(None) over the good pickle and the logged message is gone")
     r8_strong_deserializer(ctx)
     if dumps or loads:
         ctx.ob("C18.R8", "freeze / message use the same pickling module both ways",
@@ -2190,6 +2286,47 @@ def r14(ctx):
             ctx.ob("C18.R14", f"{ci.name}.{dn} only orders operands with the same number of components", not bad, m.where,
                    f"{bad}: zip() stops at the shorter operand and all() of nothing is True, so ordering against '' / b'' / a "
                    f"shorter tuple is vacuously true (filter `Foo.Bar.Pos < \"\"` matches every entry)")
+
+
+def _swallowed(node, fn_node) -> Optional[str]:
+    """None when `node` lies in the body of a try whose catch-all handler does not raise; else the reason."""
+    for tc in try_contexts(node, fn_node):
+        if tc.section != "body":
+            continue
+        hs = [h for h in tc.node.handlers if "*" in handler_names(h) or any(nm in CATCH_ALL for nm in handler_names(h))]
+        if hs and not any(isinstance(x, ast.Raise) for h in hs for x in walk(h)):
+            return None
+        return f"the enclosing handler(s) only catch {sorted({nm for h in tc.node.handlers for nm in handler_names(h)})}"
+    return "not inside a try"
+
+
+def r4_body_parse_guard(ctx):
+    """matches() walks message.blocks, which parses a deferred body on first use and re-raises what the parser raised."""
+    repo = ctx.repo
+    lcls = repo.cls("LLUDPMessageLogEntry", LOGR)
+    m = inline_self_calls(repo, repo.lookup_method(lcls, "matches")) if repo.lookup_method(lcls, "matches").cls == lcls else None
+    fns = [m] if m is not None else [inline_self_calls(repo, g) for g, _ in effective_code(repo, lcls, "matches", depth=2)
+                                     if g.name not in ("_val_matches", "_base_matches", "_packet_root_matches", "_get_meta")]
+    n = 0
+    for g in fns:
+        msg_names = {st.path for st in stores(g.node) if st.kind == "assign" and isinstance(st.target, ast.Name) and
+                     st.value is not None and ap(st.value) == "self.message"}
+        uses = [x for x in walk(g.node, into_defs=True) if
+                (isinstance(x, ast.Attribute) and x.attr == "blocks" and isinstance(x.value, ast.Name) and x.value.id in msg_names) or
+                (isinstance(x, ast.Subscript) and isinstance(x.value, ast.Name) and x.value.id in msg_names)]
+        if not uses:
+            continue
+        n += 1
+        cfg = CFG(g.node)
+        guarded = [u for u in uses if _swallowed(u, g.node) is None]
+        gn = {x for u in guarded for x in cfg.stmt_nodes_containing(u)}
+        reach = cfg.reachable([cfg.entry], avoid=lambda x: x in gn)
+        loose = [u for u in uses if u not in guarded and any(x in reach for x in cfg.stmt_nodes_containing(u))]
+        ctx.ob("C18.R4", f"{g.qual}: parsing the message body cannot raise out of the filter", not loose, ctx.w(g, uses[0]),
+               f"`{norm(loose[0]) if loose else ''}` is the first touch of the blocks and is {_swallowed(loose[0], g.node) if loose else ''}: "
+               f"a logged message whose (deferred) body does not parse makes every field filter raise; set_filter() then "
+               f"leaves the view half rebuilt")
+    ctx.floor("C18.R4", "functions walking the logged message's blocks", n, 1)
 
 
 def r4_decode_guard(ctx):
